@@ -18,6 +18,7 @@ func init() {
 }
 
 func runC16(c *Ctx, r *Report) {
+	defer c16R5(c, r, "C16.R5")
 	r.rule("C16.R1", "permit rule per command-list scenario", 8)
 	r.rule("C16.R2", "authentication methods per credential scenario", 8)
 	r.rule("C16.R3", "NewServer receives WithRule(rule) and WithAuthMethods(methods)", 8)
@@ -220,4 +221,72 @@ func runC16(c *Ctx, r *Report) {
 		}
 		r.check(good && n == 1, "C16.R4", fname(h), "delegates to ServeConn(cx)", c.pos(h.Pos()), "the library serves the layer4 connection", "Handle does something other than delegating to the configured server's ServeConn on its connection")
 	}
+}
+
+// c16R5: only resolved, non-empty user names become accounts. Path evaluation of Provision with two credential
+// entries: every key stored into the map handed to the user/password authenticator is the placeholder-resolved
+// name, and it is stored only on paths on which that resolved name was tested to be non-empty.
+func c16R5(c *Ctx, r *Report, rule string) {
+	r.rule(rule, "accounts: every key put into the authenticator's credential map is the placeholder-resolved user name and is stored only under a test that this resolved name is not empty (an entry whose name resolves to nothing must not become the account \"\")", 1)
+	fnName := "modules/l4socks.(*Socks5Handler).Provision"
+	fn := c.Fn(fnName)
+	if fn == nil {
+		r.bad(rule, fnName, "exists", "-", "function not found")
+		return
+	}
+	cl := symInt(2)
+	sc := &Scenario{Name: "credentials=2", MaxVisit: 4, MaxPaths: 20000,
+		Params: map[string]SV{"recv": symRef("h", false), "p0": symOpaque("ctx")},
+		Heap:   map[string]SV{"h.Commands": symSlice("cmds", 0), "h.Credentials": {K: "ref", Known: true, Desc: "h.Credentials", Len: &cl}},
+	}
+	sc.Call = func(callee string, args []SV, ev *symEval, st *symState) (SV, bool) {
+		switch {
+		case strings.HasSuffix(callee, "Replacer).ReplaceAll"):
+			return SV{K: "str", Desc: "resolved(" + args[1].Desc + ")"}, true
+		case callee == "fmt.Errorf":
+			return SV{K: "ref", Known: true, Desc: "provisionError"}, true
+		case strings.HasSuffix(callee, "caddy/v2.NewReplacer"), strings.HasSuffix(callee, ".Logger"), callee == "net.ParseIP":
+			return symOpaque(shortCallee(callee)), true
+		case strings.HasPrefix(callee, "github.com/things-go/go-socks5.With"):
+			return SV{K: "ref", Known: true, Desc: shortCallee(callee) + "(" + args[0].Desc + ")"}, true
+		}
+		return SV{}, false
+	}
+	paths, err := evalPaths(fn, sc)
+	if err != nil || len(paths) == 0 {
+		r.bad(rule, fnName, sc.Name, c.pos(fn.Pos()), fmt.Sprintf("undecided: %v", err))
+		return
+	}
+	var problems []string
+	stores := 0
+	for _, p := range paths {
+		for _, e := range p.Trace {
+			if e.Kind != "mapupdate" || !strings.HasPrefix(e.What, "makemap#") || len(e.Args) < 2 {
+				continue
+			}
+			stores++
+			key := e.Args[0]
+			if !strings.HasPrefix(key, "resolved(") {
+				problems = append(problems, "the account name "+key+" is stored without resolving placeholders")
+				continue
+			}
+			guarded := false
+			for _, a := range p.Assume {
+				if !strings.Contains(a, "len("+key+")") {
+					continue
+				}
+				n := strings.NewReplacer(" ", "").Replace(a)
+				if strings.Contains(n, ">0)=true") || strings.Contains(n, "==0)=false") || strings.Contains(n, "!=0)=true") || strings.Contains(n, ">=1)=true") || strings.Contains(n, "<1)=false") || strings.Contains(n, "<=0)=false") {
+					guarded = true
+				}
+			}
+			if !guarded {
+				problems = append(problems, "the account "+key+" is created on a path that never tested the resolved name for emptiness (assumptions: "+strings.Join(p.Assume, ", ")+"): a name that resolves to nothing becomes the account \"\" and a client sending an empty user name and the resolved password is served")
+			}
+		}
+	}
+	if stores == 0 {
+		problems = append(problems, "no account is ever stored")
+	}
+	r.check(len(problems) == 0, rule, fnName, "accounts", c.pos(fn.Pos()), fmt.Sprintf("%d paths, %d account stores, all resolved and guarded", len(paths), stores), strings.Join(dedup(problems), "\n"))
 }
